@@ -91,6 +91,17 @@ def renderOutcome (o : Outcome) : Args :=
    ("sent", if o.sent.isEmpty then "-" else ";".intercalate (o.sent.map renderSend)),
    ("sub", match o.sub with | some s => renderSub s | none => "-")]
 
+/-- `channel-N ↔ channel-1N`: the default counterparty channel of the harness. -/
+def counterparty (ch : String) : String := "channel-1" ++ (ch.drop "channel-".length).toString
+
+/-- The other side as named on a `connect` line (`cport=`, `cchan=`, `conn=`; defaults as in the harness). -/
+def parsePeer (a : Args) : Peer :=
+  { port := (a.optStr "cport").getD "transfer",
+    chan := (a.optStr "cchan").getD (counterparty (a.str "chan")),
+    connection := (a.optStr "conn").getD "connection-0" }
+
+def renderChanInfo (i : ChanInfo) : String := s!"{i.id}|{i.cpPort}|{i.cpChan}|{i.connection}"
+
 def allDenoms (m : MState) : List String := m.denoms ++ m.tokens.map (fun t => "cw20:" ++ t)
 
 def obsOf (m : MState) : Args :=
@@ -111,7 +122,8 @@ def obsOf (m : MState) : Args :=
   let hold := (allDenoms m).map fun d => s!"{d}|{(m.w.holdings (parseDenom d)).getD 0}"
   let bal := m.pool.map fun a =>
     "|".intercalate (a :: (m.denoms.map fun d => toString (m.w.bankBal a d)) ++ (m.tokens.map fun t => toString (m.w.tokBal t a)))
-  [("cfg", cfg), ("gov", gov), ("admin", match queryAdmin s with | .ok a => a | .error _ => "?"), ("allow", joinC allow), ("pallow", joinC pallow)]
+  [("cfg", cfg), ("gov", gov), ("admin", match queryAdmin s with | .ok a => a | .error _ => "?"), ("allow", joinC allow), ("pallow", joinC pallow),
+   ("channels", joinC ((queryListChannels s).map renderChanInfo))]
     ++ chs ++ [("hold", joinC hold), ("bal", joinC bal)]
 
 def err (m : MState) (tag : String) : MState × StepResult := (m, { ok := some false, tag := tag })
@@ -162,6 +174,7 @@ def stepOp (m : MState) (toks : List String) : MState × StepResult :=
         v1gov := if v1 then some gov else none,
         admin := if v1 then none else some gov,
         allow := allow, channels := a.list "chans", chan := chan,
+        chanInfo := (a.list "chans").foldl (fun acc c => acc.set c ⟨c, "transfer", counterparty c, "connection-0"⟩) [],
         versionName := a.str "name", version := parseVersion (a.str "ver") }
     -- the tokens the old code held
     let w := (a.list "hold").foldl (fun (w : World) e =>
@@ -190,7 +203,10 @@ def stepOp (m : MState) (toks : List String) : MState × StepResult :=
     let fail := a.nat "fail" == 1
     let tv := a.nat "tv" == 1
     match kind with
-    | "connect" => runOp m kind (.connect (a.str "chan") (a.str "ver") (a.optStr "cver") (a.str "order" == "ordered"))
+    | "connect" =>
+      runOp m kind (.connect (a.str "chan") (a.str "ver") (a.optStr "cver") (a.str "order" == "ordered") (parsePeer a))
+    | "open" => runOp m kind (.chanOpen (a.str "ver") (a.optStr "cver") (a.str "order" == "ordered"))
+    | "close" => runOp m kind (.chanClose (a.str "chan"))
     | "recv" => runOp m kind (.recv (parsePacketIn a) (parseAddr (a.str "rcv")).1 tv fail)
     | "ack" =>
       let f := parseFlight a
@@ -210,6 +226,14 @@ def stepOp (m : MState) (toks : List String) : MState × StepResult :=
       | "list_allowed" =>
         (queryListAllowed s ((a.optStr "after").map addrArg) (a.optNat "limit")).map fun l =>
           joinC (l.map fun p => s!"{p.1}|{optNatStr p.2}")
+      | "port" => queryPort (a.optStr "env")
+      | "list_channels" => .ok (joinC ((queryListChannels s).map renderChanInfo))
+      | "channel" => do
+        let i ← queryChannelInfo s (a.str "id")
+        let es ← queryChannel s (a.str "id")
+        pure (renderChanInfo i ++ ";" ++ joinC (es.map fun e => s!"{e.1}|{e.2.outstanding}|{e.2.totalSent}"))
+      | "config" => (queryConfig s).map fun (t, g, gv) => s!"{t}/{optNatStr g}/{if gv == "" then "-" else gv}"
+      | "admin" => queryAdmin s
       | _ => .error "badquery"
     match r with
     | .ok v => (m, { ok := some true, out := [("result", v)], tag := s!"q.{kind}.ok" })
